@@ -17,7 +17,8 @@ fn read_fst(path: &Path) -> Option<Vec<Kv>> {
 
 fn gen_rows(r: &mut StdRng, n: usize, nkeys: usize, dupfree: bool, allow_empty: bool) -> Vec<(String, u64)> {
     let mut pool: Vec<String> = vec![];
-    let alpha = ['a', 'b', 'c', 'x', 'é'];
+    // (a blank inside, in front of or behind a key is part of the key)
+    let alpha = ['a', 'b', 'c', 'x', 'é', ' '];
     while pool.len() < nkeys {
         let len = r.gen_range(if allow_empty { 0 } else { 1 }, 4);
         let k: String = (0..len).map(|_| alpha[r.gen_range(0, alpha.len())]).collect();
